@@ -155,7 +155,15 @@ func singlelineDiff(expected, received string) (string, int, int) {
 		dmp.DiffMain(expected, received, false),
 	)
 	if len(diffs) == 1 && diffs[0].Type == diffEqual {
-		return "", -1, -1
+		if expected == received {
+			return "", -1, -1
+		}
+		// the texts differ only in bytes that are not valid UTF-8, which the
+		// rune based diff cannot see; report the whole line as changed.
+		diffs = []diffmatchpatch.Diff{
+			{Type: diffDelete, Text: expected},
+			{Type: diffInsert, Text: received},
+		}
 	}
 
 	var inserted, deleted int
